@@ -158,7 +158,7 @@ static void parse_doc(const std::string& doc, long k) {
   catch (...) { std::cout << "X unknown\nO exc unknown\n"; }
 }
 
-// mask = IsFloat + 2*IsInteger + 4*deg2gon ; then ':' and the value of CoreParser::toIndex ('-' = rejected,
+// mask = IsFloat + 2*IsInteger + 4*deg2gon + 8*CoreParser::toDouble ; then ':' and the value of CoreParser::toIndex ('-' = rejected,
 // 'big' = accepted by the recogniser but >= 2^31, where toIndex's static_cast<int> is undefined and not called)
 static std::string lit_result(Probe& p, const std::string& s) {
   bool f = GNU_gama::IsFloat(s);
@@ -172,7 +172,9 @@ static std::string lit_result(Probe& p, const std::string& s) {
   double g = 0;
   bool dg = GNU_gama::deg2gon(s, g);
   std::ostringstream o;
-  o << (f ? 1 : 0) + (i ? 2 : 0) + (dg ? 4 : 0) << ":" << x;
+  double tv = 0;
+  bool td = p.dbl(s, tv);
+  o << (f ? 1 : 0) + (i ? 2 : 0) + (dg ? 4 : 0) + (td ? 8 : 0) << ":" << x;
   return o.str();
 }
 
